@@ -154,7 +154,22 @@ def enc_json(j):
 # texts -> syntax trees (the observation; float atoms = bits of the float the text reads back as)
 # ---------------------------------------------------------------------------------------------
 def readback(s):
-    return float(ast.literal_eval(s))
+    """the float a numeric text reads back as; the sign of a zero is kept ('-0' and '0' are different texts)"""
+    x = _fnum(ast.parse(s.strip(), mode='eval').body)
+    if x is None:
+        raise ValueError('not a number: %r' % s)
+    return x
+
+
+def _fnum(node):
+    """like _num, as a float, negating after the conversion (so that '-0' reads as -0.0)"""
+    if isinstance(node, ast.Constant) and isinstance(node.value, (int, float)) and not isinstance(node.value, bool):
+        return float(node.value)
+    if isinstance(node, ast.UnaryOp) and isinstance(node.op, (ast.USub, ast.UAdd)):
+        x = _fnum(node.operand)
+        if x is not None:
+            return -x if isinstance(node.op, ast.USub) else x
+    return None
 
 
 def _num(node):
@@ -199,12 +214,12 @@ def generic_surf(node):
 def surf_of(node, tree):
     t = tree['t']
     if t in ('double', 'scaled'):
-        x = _num(node)
+        try:
+            x = _fnum(node)
+        except OverflowError:
+            return {'a': 'x:overflow'}
         if x is not None:
-            try:
-                return {'a': 'f:%d' % f2bits(float(x))}
-            except OverflowError:
-                return {'a': 'x:overflow'}
+            return {'a': 'f:%d' % f2bits(x)}
     elif t == 'array' and isinstance(node, ast.List):
         return {'l': [surf_of(e, tree['elem']) for e in node.elts]}
     elif t == 'tuple' and isinstance(node, ast.Tuple) and len(node.elts) == len(tree['elems']):
@@ -368,8 +383,10 @@ def run_impl(tree, fmts, v):
             table.append([key[0], key[1], f2bits(r)])
             if f2bits(x + 0.0) == f2bits(x):            # the law is stated for canonical floats
                 y = ldt(ast.literal_eval(s))
-                if ldt.fmtstr % y != s and leaf['t'] == 'double':
-                    # (for a scaled leaf the law is a precondition the Lean side decides from the table: `fmtlaw`)
+                if ldt.fmtstr % y != s:
+                    # the law is a precondition of the text clauses which the Lean side decides from the table (`fmtlaw`);
+                    # here it is only cross-checked: known to fail for negative values printing as '-0.0' under %.nf and for
+                    # scaled leaves whose grid is finer than the double spacing
                     libfail.append('fmt law: %r %% %r = %r reads back as %r which prints %r' % (ldt.fmtstr, x, s, y, ldt.fmtstr % y))
                 if x + 0.0 != x or not (x <= x) or x * 3.0 != 3.0 * x:
                     libfail.append('float law on %r' % x)
@@ -400,6 +417,9 @@ def canon_out(o):
 
 
 KEYS = ['exp', 'node', 'client', 'cdt', 'text', 'back', 'again', 'cval', 'ctext', 'cback', 'cagain', 'sent', 'cnode']
+
+
+CLIENT_KEYS = ['client', 'cdt', 'cval', 'ctext', 'cback', 'cagain', 'sent', 'cnode']
 
 
 def obs(d):
@@ -672,6 +692,7 @@ def run(ctx):
     CH = 10000
     shrunk = 0
     libfails = 0
+    seen_unshrunk = set()
     for start in range(0, len(cases), CH):
         chunk = cases[start:start + CH]
         reqs, impls, lfs = [], [], []
@@ -711,19 +732,29 @@ def run(ctx):
             if len(res.samples) < 6 and t in ('array', 'tuple', 'struct') and origin == 'gen' and len(json.dumps(c)) < 600:
                 res.samples.append({'case': c, 'impl': {k: impl[k] for k in ('exp', 'text', 'ctext', 'sent')}})
             for lf in libfail:
+                if lf.startswith('fmt law: ') and not ans['fmtlaw']:
+                    res.count('libtest.fmt-law-fails(agrees with the Lean precondition)')
+                    continue
                 libfails += 1
                 res.count('libtest.failed')
                 if libfails <= 5:
                     res.disagreements.append({'case': c, 'model': 'library law assumed by the theorems', 'impl': lf})
             if not ans.get('b64', True):
                 res.disagreements.append({'case': c, 'model': 'Base64.decode? (Base64.encode b) = some b', 'impl': 'fails in Lean'})
-            if ctx.model_ok and obs(ans['model']) != obs(impl):
-                mo, io = obs(ans['model']), obs(impl)
+            mo, io = obs(ans['model']), obs(impl)
+            if isinstance(impl.get('cdt'), dict) and 'err' in impl['cdt']:
+                # the description did not rebuild (C03's matter): nothing of the client side is compared
+                for k in CLIENT_KEYS:
+                    mo[k] = io[k] = None
+            if ctx.model_ok and mo != io:
                 diff = [k for k in KEYS if mo[k] != io[k]]
                 res.disagreements.append({'case': c, 'model': {k: mo[k] for k in diff}, 'impl': {k: io[k] for k in diff}})
             for clause in ans['judge']:
                 small = c
-                if shrunk < 40:
+                if (clause, t) in seen_unshrunk and shrunk >= 12:
+                    continue                       # the same clause on the same root kind was reported (and shrunk) already
+                seen_unshrunk.add((clause, t))
+                if shrunk < 60:
                     shrunk += 1
                     small = shrink(ctx, c, clause)
                 _, simpl, _ = eval_case(small)
